@@ -87,7 +87,6 @@ MUTANTS = {
         ("patch:own-c01-mnp-phase-record",),
         ("minus-strand-insertion-anchor", "aldy/gene.py", '                        op = f"ins{rev_comp(op[3:])}"\n                        pos += 1', '                        op = f"ins{rev_comp(op[3:])}"'),
         ("deletion-anchor-in-realignment", "aldy/sam.py", "                    p -= 1\n                    o = self.gene[p]", "                    o = self.gene[p]"),
-        ("homozygous-postprocessing-one-allele", "aldy/minor.py", "                        if m not in alleles[allele]:\n                            added.append(m)", "                        if m not in alleles[allele] and not solution:\n                            added.append(m)"),
         ("minus-strand-mnp-anchor", "aldy/gene.py", "                        pos = pos + len(l) - 1", "                        pos = pos"),
         ("major-novel-cheap", "aldy/profile.py", "        self.major_novel = 21.0", "        self.major_novel = 0.0"),
     ],
